@@ -164,6 +164,42 @@ def _consts_from_source():
     if len(table) != 8:
         raise ValueError("_filter_ignore_accept: operator table shape changed")
     out["opTable"] = sorted(table)
+    # ---- parsing.py: reserved names of _synonym, shape of replace_synonym_in_filters
+    psrc = (REPO_SRC / "pharmpy/model/external/nonmem/parsing.py").read_text()
+    ptree = ast.parse(psrc)
+    pfuncs = {n.name: n for n in ast.walk(ptree) if isinstance(n, ast.FunctionDef)}
+    for need in ("_synonym", "parse_column_info", "replace_synonym_in_filters", "parse_dataset"):
+        if need not in pfuncs:
+            raise ValueError(f"parsing.py: {need} not found")
+    res = [[e.value for e in n.value.elts] for n in ast.walk(pfuncs["_synonym"]) if isinstance(n, ast.Assign)
+           and isinstance(n.targets[0], ast.Name) and n.targets[0].id == "_reserved_column_names" and isinstance(n.value, ast.List)
+           and all(isinstance(e, ast.Constant) for e in n.value.elts)]
+    if len(res) != 1:
+        raise ValueError("_synonym: _reserved_column_names list not found")
+    out["reservedNames"] = res[0]
+    # replace_synonym_in_filters must be: result = []; for f in filters: <...; exactly one result.append(..) as the
+    # last statement of the loop body, none elsewhere>; return result   (one output per input, in input order)
+    fn = pfuncs["replace_synonym_in_filters"]
+    body = [st for st in fn.body if not (isinstance(st, ast.Expr) and isinstance(st.value, ast.Constant))]
+    ok = (len(body) == 3 and isinstance(body[0], ast.Assign) and isinstance(body[0].value, ast.List) and not body[0].value.elts
+          and isinstance(body[0].targets[0], ast.Name)
+          and isinstance(body[1], ast.For) and isinstance(body[1].iter, ast.Name) and body[1].iter.id == fn.args.args[0].arg
+          and not body[1].orelse and isinstance(body[2], ast.Return) and isinstance(body[2].value, ast.Name)
+          and body[2].value.id == body[0].targets[0].id)
+    if ok:
+        acc = body[0].targets[0].id
+
+        def is_append(st):
+            return (isinstance(st, ast.Expr) and isinstance(st.value, ast.Call) and isinstance(st.value.func, ast.Attribute)
+                    and st.value.func.attr in ("append", "insert", "extend") and isinstance(st.value.func.value, ast.Name)
+                    and st.value.func.value.id == acc)
+        loop = body[1].body
+        appends = [n for n in ast.walk(body[1]) if isinstance(n, ast.Expr) and is_append(n)]
+        ok = len(appends) == 1 and loop and is_append(loop[-1]) and loop[-1].value.func.attr == "append" \
+            and not any(isinstance(n, (ast.Break, ast.Continue)) for n in ast.walk(body[1]))
+    if not ok:
+        raise ValueError("replace_synonym_in_filters: not the recognised 'one append per filter, in order' loop")
+    out["replaceSynShape"] = "for f in filters: ...; result.append(s)"
     return out
 
 
@@ -174,13 +210,16 @@ def _lean_str(s):
 def translate_consts():
     from harness.common.paths import LEAN
     c = _consts_from_source()
-    lines = ["/- GENERATED by harness/corr/c13.py (T6) from /repo/src/pharmpy/model/external/nonmem/dataset.py. Do not edit. -/",
+    lines = ["/- GENERATED by harness/corr/c13.py (T6) from /repo/src/pharmpy/model/external/nonmem/{dataset,parsing}.py. Do not edit. -/",
              "namespace Pharmpy.C13.Generated", ""]
     for k in ("sepRegex", "commentAt", "commentPrefix", "commentSuffix", "spaceTab", "blankLine", "shortRegex"):
         lines.append(f"def {k} : String := {_lean_str(c[k])}")
     lines.append(f"def shortMatchFn : String := {_lean_str(c['shortMatchFn'])}")
     lines.append(f"def commentEscaped : Bool := {'true' if c['commentEscaped'] else 'false'}")
     lines.append(f"def itemLimit : Nat := {c['itemLimit']}")
+    lines.append("/-- `_reserved_column_names` of parsing.py `_synonym` -/")
+    lines.append("def reservedNames : List String := [" + ", ".join(_lean_str(x) for x in c["reservedNames"]) + "]")
+    lines.append(f"def replaceSynShape : String := {_lean_str(c['replaceSynShape'])}")
     lines.append("def specialCols : List String := [" + ", ".join(_lean_str(s) for s in c["specialCols"]) + "]")
     lines.append("def dateCols : List String := [" + ", ".join(_lean_str(s) for s in c["dateCols"]) + "]")
     lines.append("/-- (terminal, spellings) of the IGNORE/ACCEPT grammar -/")
@@ -446,10 +485,148 @@ def gen_roundtrip_case(rng):
     return {"kind": "roundtrip", "cols": cols, "rows": rows, "seed": rng.randrange(1 << 30)}
 
 
+# ---------------------------------------------------------------- model-level cases ($INPUT / $DATA of a control stream)
+
+SYN_RESERVED = ["DV", "AMT", "MDV", "EVID", "RATE", "TIME", "CMT"]
+SYN_NAMES = ["CONC", "DOSE", "OBS", "FLAG", "RT", "TAD", "LNDV"]
+PLAIN_NAMES = ["WGT", "APGR", "SEX", "X1", "AGE", "DV", "AMT", "MDV", "TIME"]
+MARKERS = ["EXCL", "BQL", "x", "NA", "miss"]
+OP_SPELL_M = {"seq": [".EQ.", "==", "="], "sne": [".NE.", "/="], "eq": [".EQN."], "ne": [".NEN."], "lt": [".LT.", "<"],
+              "gt": [".GT.", ">"], "le": [".LE.", "<="], "ge": [".GE.", ">="]}
+
+
+def gen_plain_number(rng):
+    r = rng.random()
+    if r < 0.5:
+        return str(rng.randint(0, 150))
+    if r < 0.75:
+        return f"{rng.randint(0, 150)}.{rng.randint(0, 99)}"
+    if r < 0.85:
+        return rng.choice([".", "", "0", "-1", "+2.5"])
+    return rng.choice(["1e2", "2.5E-1", "1D1", "-5D1", "2-1", "3+1", "00.50", MISSING])
+
+
+def gen_model_case(rng: random.Random):
+    """A control stream's $INPUT (synonyms either way round, DROP/SKIP in every form) and $DATA (IGNORE character, NULL,
+    one or more IGNORE=(..) / ACCEPT=(..) lists mixing text and numeric conditions, written with reserved names or
+    synonyms) plus a data file in which some rows carry text markers that only an earlier text condition removes."""
+    ncol = rng.randint(2, 6)
+    bases = ["ID"] if rng.random() < 0.85 else []
+    pool = PLAIN_NAMES[:]
+    rng.shuffle(pool)
+    while len(bases) < ncol and pool:
+        bases.append(pool.pop())
+    syns = SYN_NAMES[:]
+    rng.shuffle(syns)
+    opts, cols = [], []          # cols: [column name, drop, [names a condition may use]]
+    for b in bases:
+        r = rng.random()
+        if b in SYN_RESERVED and b != "ID" and r < 0.5 and syns:
+            sy = syns.pop()
+            opts.append([sy, b] if rng.random() < 0.5 else [b, sy])
+            cols.append([sy, False, [b, b, sy]])
+        elif b != "ID" and r < 0.62:
+            form = rng.randrange(5)
+            if form == 4:
+                opts.append([rng.choice(["DROP", "SKIP"]), None])
+                cols.append([None, True, []])
+            else:
+                w = rng.choice(["DROP", "SKIP"])
+                opts.append([b, w] if form < 2 else [w, b])
+                cols.append([b, True, [b]])
+        else:
+            opts.append([b, None])
+            cols.append([b, False, [b]])
+    n = len(cols)
+    usable = [j for j in range(n) if cols[j][2]]
+    nrows = rng.randint(2, 8)
+    marker = rng.choice(MARKERS)
+    scenario = rng.random() < 0.55 and len([j for j in usable if bases[j] != "ID"]) >= 2
+    mcols = rng.sample([j for j in usable if bases[j] != "ID"], 2) if scenario else []
+    marked = set(i for i in range(nrows) if rng.random() < 0.3) if scenario else set()
+    rows = []
+    cid = rng.randint(1, 3)
+    for i in range(nrows):
+        if rng.random() < 0.35:
+            cid += rng.choice([1, 1, 1, 2, -1])
+            cid = max(cid, 1)
+        k = n if rng.random() < 0.85 else max(1, n + rng.choice([-1, -1, 1]))
+        row = []
+        for j in range(k):
+            if j < n and bases[j] == "ID":
+                row.append(rng.choice([str(cid), str(cid), f"{cid}.0", f"{cid}e0"]))
+            elif j in mcols and i in marked:
+                row.append(marker)
+            elif j < n and cols[j][1] and rng.random() < 0.4:
+                row.append(rng.choice(["abc", "text", marker, "1"]))
+            elif rng.random() < 0.04:
+                row.append(rng.choice(MARKERS + ["2-1-3", "1e"]))
+            else:
+                row.append(gen_plain_number(rng))
+        sep = rng.choice([",", ",", ",", ",", " ", "\t", ", ", " ,"])
+        rows.append(sep.join(row))
+    ic = wchoice(rng, [("@", 50), (None, 15), ("#", 15), ("C", 10), ("*", 10)])
+    hdr = ",".join(c[0] or "DROP" for c in cols)
+    lines = list(rows)
+    if ic == "@":
+        lines.insert(0, hdr)
+    elif rng.random() < 0.6:
+        lines.insert(0, (ic or "#") + hdr)
+    if rng.random() < 0.1:
+        lines.insert(rng.randint(0, len(lines)), (ic if ic and ic != "@" else "#") + " note")
+    text = "\n".join(lines) + ("\n" if rng.random() < 0.9 else "")
+    # conditions
+    filters = []
+    items = [it for r_ in rows for it in re.split(SEP_REGEX, r_.strip())]
+
+    def cond(j, op, val):
+        name = rng.choice(cols[j][2])
+        sp = rng.choice(OP_SPELL_M[op])
+        q = rng.random() < 0.15 and op in ("seq", "sne")
+        v = (rng.choice(['"%s"', "'%s'"]) % val) if q else val
+        return [name, op, val, f"{name}{sp}{v}"]
+
+    if scenario:
+        filters.append(cond(mcols[0], "seq", marker))
+        for j in rng.sample(usable, min(len(usable), rng.randint(1, 2))):
+            if bases[j] != "ID" or rng.random() < 0.3:
+                filters.append(cond(j, rng.choice(["gt", "lt", "ge", "le", "eq", "ne"]), str(rng.randint(0, 120))))
+        if rng.random() < 0.5:
+            filters.append(cond(mcols[1], rng.choice(["gt", "lt", "ge", "eq"]), str(rng.randint(0, 120))))
+        if rng.random() < 0.35:
+            rng.shuffle(filters)
+    elif usable and rng.random() < 0.8:
+        for _ in range(rng.randint(1, 4)):
+            j = rng.choice(usable)
+            op = rng.choice(["seq", "seq", "sne", "eq", "ne", "lt", "gt", "le", "ge"])
+            if op in ("seq", "sne"):
+                cands = [x for x in items if re.fullmatch(r'[^"\',;()=<>/.\s][^"\',;()=\s]*', x or "")]
+                val = rng.choice(cands) if cands and rng.random() < 0.8 else rng.choice(MARKERS)
+            else:
+                val = rng.choice([str(rng.randint(0, 120)), f"{rng.randint(0, 50)}.5", "0", "1"])
+            filters.append(cond(j, op, val))
+    mode = 0 if not filters else (1 if rng.random() < 0.85 else 2)
+    groups = []
+    left = len(filters)
+    while left:
+        g = rng.randint(1, left)
+        groups.append(g)
+        left -= g
+    null = wchoice(rng, [(None, 75), ("5", 8), ("9", 5), ("+", 6), ("-", 6)])
+    return {"kind": "model", "input": opts, "text": text, "ic": ic, "null": null, "mode": mode, "filters": filters,
+            "groups": groups, "seed": rng.randrange(1 << 30)}
+
+
+def _mc(inp, text, filters, mode=1, ic="@", null=None, groups=None):
+    return {"kind": "model", "input": inp, "text": text, "ic": ic, "null": null, "mode": mode if filters else 0,
+            "filters": filters, "groups": groups or [1] * len(filters), "seed": 5}
+
+
 def gen_cases(rng: random.Random, n: int, tier: str):
     out = []
     for _ in range(n):
-        out.append(gen_roundtrip_case(rng) if rng.random() < 0.08 else gen_read_case(rng))
+        r = rng.random()
+        out.append(gen_roundtrip_case(rng) if r < 0.07 else (gen_model_case(rng) if r < 0.27 else gen_read_case(rng)))
     return out
 
 
@@ -497,12 +674,43 @@ def corpus_cases():
         _rc("1,0,5\n2,1,6\n1,2,7\n", ["ID", "TIME", "DV"]),
         _rc("1,12:30,5\n1,1,6\n", ["ID", "TIME", "DV"]),
         _rc("1 ,  2\t 3\n,4,,\n", ["ID", "TIME", "DATE", "DV"], ic="@"),
+        # model level: a text condition on a synonym column written before a numeric condition (and the other way round)
+        _mc([["ID", None], ["TIME", None], ["CONC", "DV"], ["WGT", None]],
+            "ID,TIME,DV,WGT\n1,0,10.5,70\n1,1,x,x\n2,0,11,120\n3,0,7,65\n",
+            [["DV", "seq", "x", "DV.EQ.x"], ["WGT", "gt", "100", "WGT.GT.100"]]),
+        _mc([["ID", None], ["TIME", None], ["DV", "CONC"], ["WGT", None]],
+            "ID,TIME,DV,WGT\n1,0,10.5,70\n1,1,x,x\n2,0,11,120\n3,0,7,65\n",
+            [["WGT", "gt", "100", "WGT.GT.100"], ["CONC", "seq", "x", "CONC.EQ.x"]], groups=[2]),
+        _mc([["ID", None], ["DOSE", "AMT"], ["DROP", None], ["SEX", "DROP"], ["SKIP", "X1"]],
+            "#h\n1,0,a,b,c\n2,5,d,e,f\n", [["AMT", "ge", "1", "AMT>=1"], ["X1", "seq", "c", "X1=c"]], ic=None, mode=2),
         {"kind": "roundtrip", "cols": ["ID", "TIME", "DV"], "rows": [["1.0", "0.0", "-2.2250738585072014e-308"],
                                                                        ["2.0", "1.0", "nan"]], "seed": 3},
     ]
 
 
 def shrink(case):
+    if case["kind"] == "model":
+        lines = case["text"].split("\n")
+        for i in range(len(lines)):
+            if len(lines) > 1:
+                c = dict(case)
+                c["text"] = "\n".join(lines[:i] + lines[i + 1:])
+                yield c
+        for i in range(len(case["filters"])):
+            if len(case["filters"]) > 1:
+                c = dict(case)
+                c["filters"] = case["filters"][:i] + case["filters"][i + 1:]
+                c["groups"] = [1] * len(c["filters"])
+                yield c
+        if case["groups"] != [1] * len(case["filters"]):
+            c = dict(case)
+            c["groups"] = [1] * len(case["filters"])
+            yield c
+        if case["null"] is not None:
+            c = dict(case)
+            c["null"] = None
+            yield c
+        return
     if case["kind"] != "read":
         rows = case["rows"]
         for i in range(len(rows)):
@@ -542,13 +750,16 @@ def shrink(case):
 # ---------------------------------------------------------------- real-code side
 
 def worker_init():
-    global pd, np, ds, DatasetError, EmptyDataError, IntCastingNaNError
+    global pd, np, ds, DatasetError, EmptyDataError, IntCastingNaNError, read_model, NMTranParser, nm_parsing
     warnings.simplefilter("ignore")
     import numpy as np  # noqa
     import pandas as pd  # noqa
     from pandas.errors import EmptyDataError, IntCastingNaNError  # noqa
     import pharmpy.model.external.nonmem.dataset as ds  # noqa
     from pharmpy.model import DatasetError  # noqa
+    from pharmpy.modeling import read_model  # noqa
+    from pharmpy.model.external.nonmem.nmtran_parser import NMTranParser  # noqa
+    import pharmpy.model.external.nonmem.parsing as nm_parsing  # noqa
 
 
 def err_class(e):
@@ -909,7 +1120,9 @@ def ref_matches(ref, real, case):
     for a, b in zip(rrows, qrows):
         if len(a) != len(b):
             return False
-        for x, y in zip(a, b):
+        for j, (x, y) in enumerate(zip(a, b)):
+            if case.get("mask_drop") and case["drop"][j]:
+                continue            # model level: a DROPped column is cast to str by the datainfo dtype step
             if x[0] == "raw":
                 if x[1] is None or x[1] in ("", "."):
                     continue        # NULL in an unparsed column: representation not specified
@@ -945,11 +1158,77 @@ def real_number(s):
         return ["err"]
 
 
+def judge_with_reference(case, real, tags, mon, differ_cls, try_orders=False):
+    """Compare the real outcome with the reference reader (documented rules). A disagreement is attributed to a known
+    defect class only if emulating exactly that defect reproduces the real outcome; with try_orders, a disagreement
+    that is reproduced by applying the same conditions in another order gets its own class."""
+    try:
+        ref = ref_read(case)
+    except Unspec as u:
+        tags.append(f"ref-unspecified:{u}")
+        return
+    if ref_matches(ref, real, case):
+        tags.append("ref:agree")
+        return
+    # which known defects could apply to this text? try emulating them, smallest set first
+    found = None
+    loose = None
+    flags = list(EMU_CLASS)
+    for size in range(1, 4):
+        for sub in itertools.combinations(flags, size):
+            try:
+                r2 = ref_read(case, frozenset(sub))
+            except Unspec as u2:
+                # the emulated defects all took effect, afterwards the documented rules do not decide
+                if loose is None and u2.fired == frozenset(sub):
+                    loose = sub
+                continue
+            if ref_matches(r2, real, case):
+                found = sub
+                break
+        if found:
+            break
+    refd = ref[:2] if ref[0] == "err" else "ok table"
+    reald = real[:3] if real[0] == "err" else "ok table"
+    if not found and try_orders and 2 <= len(case["filters"]) <= 5:
+        for perm in itertools.permutations(range(len(case["filters"]))):
+            if list(perm) == sorted(perm):
+                continue
+            c2 = dict(case)
+            c2["filters"] = [case["filters"][i] for i in perm]
+            try:
+                r2 = ref_read(c2)
+            except Unspec:
+                continue
+            if ref_matches(r2, real, c2):
+                mon.append({"cls": "filters-applied-out-of-written-order",
+                            "what": f"reader gives {reald}, the documented rules with the conditions in the order written give "
+                                    f"{refd}; the real outcome is what the order {[case['filters'][i][3] for i in perm]} gives"})
+                tags.append("ref:order-defect")
+                return
+    if not found and loose:      # an exact reproduction is preferred to "took effect, then undecided"
+        found = loose
+        tags.append("ref:known-defect-then-unspecified")
+    if found:
+        for fl in found:
+            mon.append({"cls": EMU_CLASS[fl], "what": f"reader gives {reald}, documented rules give {refd}; "
+                        f"reproduced by emulating {found} in the reference"})
+        tags.append("ref:known-defect")
+    else:
+        detail = ""
+        if ref[0] == "ok" and real[0] == "ok":
+            detail = f" real rows {real[2]} reference rows {[[c[:2] for c in r] for r in ref[1]]}"
+        mon.append({"cls": differ_cls, "what": f"reader gives {reald}, documented rules give {refd}.{detail[:600]}"})
+
+
+
 # ---------------------------------------------------------------- run
 
 def run_case(case, drv):
     if case["kind"] == "roundtrip":
         return run_roundtrip(case, drv)
+    if case["kind"] == "model":
+        return run_model_case(case, drv)
     k, mon, tags = [], [], []
     text = case["text"]
     real = real_read(case)
@@ -1047,50 +1326,199 @@ def run_case(case, drv):
                     mon.append({"cls": "number-value", "what": f"convert_fortran_number({it!r}) = {rn[1]}, documented value {dec_float(sd)}"})
 
     # ---- Mon: reference reader
-    try:
-        ref = ref_read(case)
-        if ref_matches(ref, real, case):
-            tags.append("ref:agree")
-        else:
-            # which known defects could apply to this text? try emulating them, smallest set first
-            found = None
-            loose = None
-            flags = list(EMU_CLASS)
-            for size in range(1, 4):
-                for sub in itertools.combinations(flags, size):
-                    try:
-                        r2 = ref_read(case, frozenset(sub))
-                    except Unspec as u2:
-                        # the emulated defects all took effect, afterwards the documented rules do not decide
-                        if loose is None and u2.fired == frozenset(sub):
-                            loose = sub
-                        continue
-                    if ref_matches(r2, real, case):
-                        found = sub
-                        break
-                if found:
-                    break
-            if not found and loose:      # an exact reproduction is preferred to "took effect, then undecided"
-                found = loose
-                tags.append("ref:known-defect-then-unspecified")
-            refd = ref[:2] if ref[0] == "err" else "ok table"
-            reald = real[:3] if real[0] == "err" else "ok table"
-            if found:
-                for fl in found:
-                    mon.append({"cls": EMU_CLASS[fl], "what": f"reader gives {reald}, documented rules give {refd}; "
-                                f"reproduced by emulating {found} in the reference"})
-                tags.append("ref:known-defect")
-            else:
-                detail = ""
-                if ref[0] == "ok" and real[0] == "ok":
-                    detail = f" real rows {real[2]} reference rows {[[c[:2] for c in r] for r in ref[1]]}"
-                mon.append({"cls": "read-differs-from-reference",
-                            "what": f"reader gives {reald}, documented rules give {refd}.{detail[:600]}"})
-    except Unspec as u:
-        tags.append(f"ref-unspecified:{u}")
+    judge_with_reference(case, real, tags, mon, "read-differs-from-reference")
 
     nontrivial = (real[0] == "ok" and len(real[2]) >= 2 and len(case["names"]) >= 2) or \
         (real[0] == "err" and real[1].startswith("DatasetError") and len(data_lines) >= 2)
+    return {"k": k, "mon": mon, "tags": tags, "nontrivial": bool(nontrivial)}
+
+
+# ---------------------------------------------------------------- model-level run
+
+FILT_RE = re.compile(r'^\s*(\w+)\s*(\.EQN\.|\.NEN\.|\.EQ\.|\.NE\.|\.LT\.|\.GT\.|\.LE\.|\.GE\.|==|=|/=|<=|>=|<|>)\s*(.*?)\s*$', re.S)
+OP_OF_SPELL = {".EQN.": "eq", ".NEN.": "ne", ".EQ.": "seq", "==": "seq", "=": "seq", ".NE.": "sne", "/=": "sne",
+               ".LT.": "lt", "<": "lt", ".GT.": "gt", ">": "gt", ".LE.": "le", "<=": "le", ".GE.": "ge", ">=": "ge"}
+_CASE_NO = [0]
+
+
+def parse_filter_text(t):
+    m = FILT_RE.match(t)
+    if not m:
+        return None
+    col, sp, val = m.groups()
+    if len(val) >= 3 and val[0] == val[-1] and val[0] in "'\"":
+        val = val[1:-1]
+    return [col, OP_OF_SPELL[sp], val]
+
+
+def model_code(case):
+    inp = " ".join(k if v is None else f"{k}={v}" for k, v in case["input"])
+    data = "data.csv"
+    if case["ic"] is not None:
+        data += f" IGNORE={case['ic']}"
+    if case["null"] is not None:
+        data += f" NULL={case['null']}"
+    kw = "ACCEPT" if case["mode"] == 2 else "IGNORE"
+    pos = 0
+    for g in case["groups"]:
+        data += f" {kw}=(" + ",".join(f[3] for f in case["filters"][pos:pos + g]) + ")"
+        pos += g
+    return (f"$PROBLEM c13\n$INPUT {inp}\n$DATA {data}\n$PRED\nY = THETA(1) + ETA(1) + EPS(1)\n"
+            "$THETA 1\n$OMEGA 1\n$SIGMA 1\n$ESTIMATION METHOD=1\n")
+
+
+def model_null_string(case):
+    """str(data_record.null_value): '+', '-' and no NULL option mean 0; a digit d gives str(float(d))"""
+    c = case["null"]
+    return "0" if c in (None, "+", "-") else str(float(c))
+
+
+def ref_columns(case):
+    """$INPUT by the documented meaning: names (a synonym pair is known under the non-reserved name), DROP flags, and
+    which column a name used in a condition refers to."""
+    names, drop, alias = [], [], {}
+    anon = 1
+    for k, v in case["input"]:
+        if v is None:
+            if k in ("DROP", "SKIP"):
+                names.append(f"_DROP{anon}")
+                anon += 1
+                drop.append(True)
+            else:
+                names.append(k)
+                drop.append(False)
+                alias[k] = k
+        elif k in ("DROP", "SKIP") or v in ("DROP", "SKIP"):
+            nm = v if k in ("DROP", "SKIP") else k
+            names.append(nm)
+            drop.append(True)
+            alias[nm] = nm
+        else:
+            reserved, syn = (k, v) if k in RESERVED else ((v, k) if v in RESERVED else (None, None))
+            if reserved is None:
+                return None
+            names.append(syn)
+            drop.append(False)
+            alias[syn] = syn
+            alias[reserved] = syn
+    return names, drop, alias
+
+
+RESERVED = ['ID', 'L1', 'L2', 'DV', 'MDV', 'RAW_', 'MRG_', 'RPT_', 'TIME', 'DATE', 'DAT1', 'DAT2', 'DAT3', 'EVID', 'AMT',
+            'RATE', 'SS', 'II', 'ADDL', 'CMT', 'PCMT', 'CALL', 'CONT']
+
+
+def run_model_case(case, drv):
+    k, mon, tags = [], [], ["kind:model"]
+    from harness.common.paths import scratch_root
+    import shutil
+    code = model_code(case)
+    _CASE_NO[0] += 1
+    d = scratch_root() / f"c13-{os.getpid()}-{_CASE_NO[0]}"
+    d.mkdir(parents=True, exist_ok=True)
+    try:
+        (d / "data.csv").write_text(case["text"])
+        (d / "run1.mod").write_text(code)
+        with warnings.catch_warnings():
+            warnings.simplefilter("ignore")
+            try:
+                model = read_model(d / "run1.mod")
+                df = model.dataset
+                real_names = [str(c) for c in df.columns]
+                idint = any(str(df[c].dtype) == "int32" for c in ("ID", "L1") if c in df.columns)
+                real = ["ok", idint, [[canon_cell(v) for v in row] for row in df.itertuples(index=False, name=None)]]
+            except Exception as e:
+                real = ["err", err_class(e), f"{type(e).__name__}: {str(e)[:120]}"]
+                real_names = None
+    finally:
+        shutil.rmtree(d, ignore_errors=True)
+    tags.append("m-real:" + (real[1] if real[0] == "err" else "ok"))
+    tags.append("m-mode=" + ["none", "ignore", "accept"][case["mode"]])
+    tags.append(f"m-nfilters={len(case['filters'])}")
+    nsyn = sum(1 for kk, v in case["input"] if v is not None and kk not in ("DROP", "SKIP") and v not in ("DROP", "SKIP"))
+    tags.append(f"m-synonyms={nsyn}")
+
+    # ---- pieces of the real model layer: $INPUT options, column info, conditions, synonym replacement
+    cs = NMTranParser().parse(code)
+    opts = [[o.key, o.value] for rec in cs.get_records("INPUT") for o in rec.all_options]
+    if opts != [list(x) for x in case["input"]]:
+        k.append(f"$INPUT options: written {case['input']} parsed {opts}")
+    try:
+        colnames, drop, repl, _ = nm_parsing.parse_column_info(cs)
+        ci_real = ["ok", list(colnames), [bool(x) for x in drop], sorted([a, b] for a, b in repl.items())]
+    except Exception as e:
+        ci_real = ["err", err_class(e)]
+        repl = None
+    drec = cs.get_records("DATA")[0]
+    trees = drec.accept if case["mode"] == 2 else drec.ignore
+    written = [parse_filter_text(str(t)) for t in trees]
+    if written != [f[:3] for f in case["filters"]]:
+        k.append(f"$DATA conditions: written {[f[:3] for f in case['filters']]} parsed {written}")
+    replaced_real = None
+    if repl is not None and trees:
+        replaced_real = [parse_filter_text(x) for x in nm_parsing.replace_synonym_in_filters(trees, repl)]
+        order_sensitive = any(f[1] in ("seq", "sne") for f in case["filters"]) and any(f[1] not in ("seq", "sne") for f in case["filters"])
+        if order_sensitive:
+            tags.append("m-mixed-text-numeric")
+        if any(f[0] in repl for f in case["filters"]):
+            tags.append("m-filter-on-synonym")
+    names_ref = ref_columns(case)
+    if drv is not None:
+        a = drv.ask(["colinfo", [[x for x in o if x is not None] for o in opts]])
+        if a[0] == "err":
+            if ci_real[0] != "err" or ci_real[1] != a[1]:
+                k.append(f"parse_column_info: model {a} code {ci_real}")
+        else:
+            m_ci = ["ok", a[1], [x == "true" for x in a[2]], sorted(a[3])]
+            if m_ci != ci_real:
+                k.append(f"parse_column_info: model {m_ci} code {ci_real}")
+        if replaced_real is not None:
+            a = drv.ask(["replsyn", [[r_, s_] for r_, s_ in repl.items()], [f[:3] for f in case["filters"]]])
+            if a != replaced_real:
+                k.append(f"replace_synonym_in_filters: model {a} code {replaced_real}")
+        # whole model-level read
+        ic = case["ic"] or "#"
+        a = drv.ask(["mread", case["text"], ic, [[x for x in o if x is not None] for o in opts], model_null_string(case), MISSING,
+                     case["mode"] if case["filters"] else 0, [f[:3] for f in case["filters"]]])
+        if a[0] == "err":
+            if a[1] == "outside":
+                tags.append("model-outside")
+            elif real[0] != "err" or real[1] != a[1]:
+                k.append(f"model read: model {a} code {real[:3] if real[0] == 'err' else 'ok'}")
+        elif real[0] == "err":
+            k.append(f"model read: model ok code {real[:3]}")
+        else:
+            mnames, mdrop = a[2], [x == "true" for x in a[3]]
+            mrows = [[model_cell(c) for c in row] for row in a[4]]
+            if mnames != real_names:
+                k.append(f"model read: columns model {mnames} code {real_names}")
+            elif len(mrows) != len(real[2]):
+                k.append(f"model read: model {len(mrows)} rows, code {len(real[2])} rows")
+            else:
+                for i, (x, y) in enumerate(zip(mrows, real[2])):
+                    # pandas' None padding in a text column is cast to str/NaN by the dtype step: representation not compared
+                    bad = [j for j in range(len(mnames)) if not mdrop[j] and x[j] != ["none"] and not cells_equal(x[j], y[j])]
+                    if bad:
+                        k.append(f"model read: cell[{i}][{mnames[bad[0]]}]: model {x[bad[0]]} code {y[bad[0]]}")
+                        break
+
+    # ---- Mon: reference reader on the documented meaning of $INPUT / $DATA (conditions in the order written)
+    if names_ref is None:
+        tags.append("ref-unspecified:bad-synonym")
+    else:
+        names, drop_ref, alias = names_ref
+        if any(f[0] not in alias for f in case["filters"]) or len(set(names)) != len(names):
+            tags.append("ref-unspecified:unknown-column")
+        else:
+            rc = {"kind": "read", "text": case["text"], "ic": case["ic"] or "#", "names": names, "drop": drop_ref,
+                  "null": model_null_string(case), "mode": case["mode"] if case["filters"] else 0,
+                  "filters": [[alias[f[0]], f[1], f[2], f[3]] for f in case["filters"]], "seed": case["seed"],
+                  "mask_drop": True}
+            if real[0] == "ok" and real_names != names:
+                mon.append({"cls": "model-columns-differ", "what": f"dataset columns {real_names}, $INPUT declares {names}"})
+            else:
+                judge_with_reference(rc, real, tags, mon, "model-read-differs-from-reference", try_orders=True)
+    nontrivial = len(case["filters"]) >= 2 and (real[0] == "ok" or real[1].startswith("DatasetError"))
     return {"k": k, "mon": mon, "tags": tags, "nontrivial": bool(nontrivial)}
 
 
